@@ -405,8 +405,33 @@ class PE:
                 self.calls.append(('<loop-end>', [], {}, s))
             return
         if isinstance(s, ast.Try):
-            self.block(s.body, env, func, depth)
-            self.block(s.finalbody, env, func, depth)
+            try:
+                try:
+                    self.block(s.body, env, func, depth)
+                except Raised as r:
+                    kind = str(r.what).split('(')[0].strip()
+                    handler = None
+                    for h in s.handlers:
+                        if h.type is None:
+                            handler = h
+                            break
+                        names = [norm(x).split('.')[-1] for x in (h.type.elts if isinstance(h.type, ast.Tuple) else [h.type])]
+                        if kind in names or 'Exception' in names or 'BaseException' in names \
+                                or (kind in ('KeyError', 'IndexError') and 'LookupError' in names) or (kind == 'ZeroDivisionError' and 'ArithmeticError' in names):
+                            handler = h
+                            break
+                        if not kind.endswith('Error') and not kind.endswith('Exception') and kind not in ('StopIteration', 'raise'):
+                            raise Incomplete('exception of unknown kind (%s) reaches an except clause' % str(r.what)[:50])
+                    if handler is None:
+                        raise
+                    if handler.name:
+                        env[handler.name] = Opaque('<%s>' % kind)
+                    self.block(handler.body, env, func, depth)
+                else:
+                    self.block(s.orelse, env, func, depth)
+            finally:
+                if s.finalbody:
+                    self.block(s.finalbody, env, func, depth)
             return
         if isinstance(s, ast.Delete):
             for t in s.targets:
@@ -751,6 +776,29 @@ class PE:
                     r = self.comp_hook(self, e, it, env, func, depth)
                     if r is not NotImplemented:
                         return r
+            return Opaque(norm(e))
+        if isinstance(e, ast.DictComp) and len(e.generators) == 1:
+            g = e.generators[0]
+            it = self.expr(g.iter, env, func, depth)
+            if isinstance(it, PSet):
+                it = self.unordered(it)
+            if isinstance(it, dict):
+                it = list(it.keys())
+            if isinstance(it, (list, tuple)) and len(it) <= 64:
+                out = {}
+                for x in it:
+                    env2 = dict(env)
+                    self.assign(g.target, x, env2, func, depth, e)
+                    if all(self.truth(c, env2, func, depth) for c in g.ifs):
+                        k = self.expr(e.key, env2, func, depth)
+                        if isinstance(k, P) and k.is_const() and k.const_value().denominator == 1:
+                            k = int(k.const_value())
+                        if isinstance(k, list):
+                            k = tuple(k)
+                        if not (isinstance(k, (str, int, bool, type(None))) or (isinstance(k, tuple) and all(isinstance(y, (str, int, bool, type(None))) for y in k))):
+                            return Opaque(norm(e))
+                        out[k] = self.expr(e.value, env2, func, depth)
+                return out
             return Opaque(norm(e))
         if isinstance(e, ast.Slice):
             return Opaque(norm(e))
